@@ -42,6 +42,8 @@ func init() {
 			"bound to that hash closure, signer and verifier being bound to the returned component whose peer list is the client's; " +
 			"(B4) on every successful path the hasher absorbs exactly pairs (length of field, field), the fields including session hash, id, type URL and value, every successful path absorbing the same fields, the result being Sum of that hasher; " +
 			"(B5) dedup/msgIDFuncs/allowedMsgIDs only under their mutexes, no unlock between the dedup lookup and the store it guards (followed into callers); " +
+			"(B7) the dedup table only grows: no value derived from server.dedup (locals, closure captures, inner maps, helper parameters, getter results) is handed to delete/clear/maps.DeleteFunc in any function, literal or callback of the package, " +
+			"and another table is assigned to the field only on an object under construction or when the installed table is nil/empty; " +
 			"(B6) the client sends exactly the (id, message, signatures) it verified, the local signature being over the hash of that message, stored in the verified list at the index i with peers[i]==p2pNode.ID().",
 		NotDecided: "the agreement conclusion itself (no two members deliver different payloads), secp256k1 arithmetic, that the signed hash does not bind the originating sender " +
 			"(left to application callbacks), the redundant length-65 test (k1util.Recover rejects other lengths), checkMessage/callback bodies, the errors of writes into a hash.Hash (never non-nil); " +
@@ -148,6 +150,26 @@ func init() {
 			{ID: "C13-B4-skip-empty-field", File: impl, Expect: "B4|every field",
 				Old: "\t\t\tif err := binary.Write(h, binary.BigEndian,",
 				New: "\t\t\tif len(field) == 0 {\n\t\t\t\tcontinue\n\t\t\t}\n\n\t\t\tif err := binary.Write(h, binary.BigEndian,"},
+			// ---- B7 (the dedup table only grows)
+			{ID: "C13-B7-mismatch-evicts-entry", File: srv, Expect: "B7|dedup only grows",
+				Old: "\t\treturn errors.New(\"duplicate ID, mismatching hash\")\n",
+				New: "\t\tdelete(s.dedup, key)\n\n\t\treturn errors.New(\"duplicate ID, mismatching hash\")\n"},
+			{ID: "C13-B7-table-replaced-by-latest", File: srv, Expect: "B7|dedup only grows",
+				Old: "\ts.dedup[key] = hash\n",
+				New: "\ts.dedup = map[dedupKey][]byte{key: hash}\n"},
+			{ID: "C13-B7-helper-deletefunc-on-param", File: srv, Expect: "B7|dedup only grows",
+				Old: "\t\treturn errors.New(\"duplicate ID, mismatching hash\")\n",
+				New: "\t\tforgetPeer(s.dedup, pID)\n\n\t\treturn errors.New(\"duplicate ID, mismatching hash\")\n",
+				More: [][2]string{
+					{"\t\"context\"\n", "\t\"context\"\n\t\"maps\"\n"},
+					{"func (s *server) handleSigRequest(", "func forgetPeer(table map[dedupKey][]byte, pID peer.ID) {\n\tmaps.DeleteFunc(table, func(k dedupKey, _ []byte) bool { return k.PeerID == pID })\n}\n\nfunc (s *server) handleSigRequest("},
+				}},
+			{ID: "C13-B7-clear-on-rejected-request", File: srv, Expect: "B7|dedup only grows",
+				Old: "\t\treturn nil, false, errors.Wrap(err, \"signature request message check\")\n",
+				New: "\t\ts.mu.Lock()\n\t\tclear(s.dedup)\n\t\ts.mu.Unlock()\n\n\t\treturn nil, false, errors.Wrap(err, \"signature request message check\")\n"},
+			{ID: "C13-B7-reset-in-registered-callback", File: srv, Expect: "B7|dedup only grows",
+				Old: "\tp2p.RegisterHandler(\"bcast\", p2pNode, protocolIDMsg,\n\t\tfunc() proto.Message { return new(pb.BCastMessage) },\n",
+				New: "\tp2p.RegisterHandler(\"bcast\", p2pNode, protocolIDMsg,\n\t\tfunc() proto.Message {\n\t\t\ts.mu.Lock()\n\t\t\ts.dedup = make(map[dedupKey][]byte)\n\t\t\ts.mu.Unlock()\n\n\t\t\treturn new(pb.BCastMessage)\n\t\t},\n"},
 			// ---- B5
 			{ID: "C13-B5-dedup-unlock-between", File: srv, Expect: "B5",
 				Old: "\ts.dedup[key] = hash\n",
@@ -487,6 +509,7 @@ func c13(c *rt.Ctx) {
 	c.Rule("B4", 7, func() { c13B4(c) })
 	c.Rule("B5", 7, func() { c13B5(c) })
 	c.Rule("B6", 3, func() { c13B6(c) })
+	c.Rule("B7", 2, func() { c13B7(c) })
 }
 
 // c13Lookups lists the positions (< before) of the lookups into the map held in struct field `field`.
@@ -643,6 +666,14 @@ func (p *c13P) dedupRoot(m *an.Sym, d int) bool {
 	}
 	if _, parent := p.storedUnder(m); parent != nil {
 		return p.dedupRoot(parent, d+1)
+	}
+	if m.Kind == an.KFresh {
+		// a map made on the path that is installed in the dedup field (lazy construction of the table)
+		for _, e := range p.Evs {
+			if e.Kind == "store" && len(e.Args) == 2 && an.SymEq(e.Args[1], m) && e.Args[0].FieldName() == c13N.dedup {
+				return true
+			}
+		}
 	}
 	return false
 }
@@ -896,9 +927,10 @@ func c13B2(c *rt.Ctx) {
 // repeated from the in-package callers of the helper.
 func c13Dedup(c *rt.Ctx, lock bool) {
 	funcs := an.PkgFuncs(c.SSAPkg(c13Pkg))
+	isTable := c13n4IsTable(c)
 	var holders []*ssa.Function
 	for _, fn := range funcs {
-		if fn.Parent() == nil && len(mapUpdates(fn, isFieldMap(c13N.dedup))) > 0 {
+		if fn.Parent() == nil && len(mapUpdates(fn, isTable)) > 0 {
 			holders = append(holders, fn)
 		}
 	}
